@@ -1,7 +1,7 @@
 (* C03 - flow versions sort consistently with history.  The comparators are the independent ones the property demands:
    sv_lt (SemVer section 11, Spec/SemVerSpec.v) and pep_std_cmp (the public PEP 440 order, Spec/Pep440StdOrder.v). *)
 From Coq Require Import Lia.
-From ZV Require Import Str SemVer SemVerSpec Pep440 Pep440Spec Pep440StdOrder OrderFacts Pep440Order Zerv Render Bump PepRoundTrip SemVerRoundTrip FlowLaw FlowOrder.
+From ZV Require Import Str SemVer SemVerSpec Pep440 Pep440Spec Pep440StdOrder OrderFacts Pep440Order Zerv Render Bump PepRoundTrip SemVerRoundTrip FlowLaw FlowOrder Cli Flow Convert Findings.
 Open Scope N_scope.
 
 Definition sv (x y z : N) (pre : option (list ident)) : semver :=
@@ -105,6 +105,13 @@ Theorem c03_post_monotone_rendering : forall z1 z2 x y w lab n p1 p2,
   u64 x -> u64 y -> u64 w -> u64 n -> u64 p1 -> u64 p2 ->
   sv_lt (semver_of_zerv z1) (semver_of_zerv z2).
 Proof. exact post_monotone_rendering. Qed.
+
+(* KNOWN FINDING of this property, as the model exhibits it (the check prints KNOWN-FINDING for the class; see known_findings.json) *)
+Example c03_finding_c03_base_preset :
+flow_output (w_flow [115;116;97;110;100;97;114;100;45;98;97;115;101]%N 3 5 [109;97;105;110]%N OutSemver) None 1700000000 = OOk [49;46;50;46;52]%N /\
+  flow_output (w_flow [115;116;97;110;100;97;114;100;45;98;97;115;101;45;112;114;101;114;101;108;101;97;115;101]%N 1 5 [109;97;105;110]%N OutSemver) None 1700000000
+  = flow_output (w_flow [115;116;97;110;100;97;114;100;45;98;97;115;101;45;112;114;101;114;101;108;101;97;115;101]%N 3 5 [109;97;105;110]%N OutSemver) None 1700000000.
+Proof. exact finding_c03_base_preset. Qed.
 
 Print Assumptions c03_between_semver.
 Print Assumptions c03_post_monotone_semver.
